@@ -797,7 +797,16 @@ def plane_box_wrapper(
   dist, pos, normal = plane_box(plane.normal, plane.pos, box.pos, box.rot, box.size)
   frame = make_frame(normal)
 
+  # constraint contacts as in mjc_PlaneBox: only corners on the plane side of the box centre, at most 4.
+  # The remaining corners are still reported to collision sensors (geom distance needs every corner).
+  center_dist = wp.dot(box.pos - plane.pos, plane.normal)
+  count = int(0)
   for i in range(8):
+    corner_pairid = pairid
+    if dist[i] - center_dist > 0.0 or dist[i] > margin + gap or count >= 4:
+      corner_pairid = wp.vec2i(-2, pairid[1])
+    else:
+      count += 1
     write_contact(
       naconmax_in,
       i,
@@ -813,7 +822,7 @@ def plane_box_wrapper(
       solimp,
       adhesion,
       geoms,
-      pairid,
+      corner_pairid,
       worldid,
       contact_dist_out,
       contact_pos_out,
